@@ -22,6 +22,11 @@ def prepare():
 
 def run(m):
     prepare()
+    if m.get("base"):
+        r = subprocess.run(["patch", "-p1", "-s", "-i", os.path.join(HERE, "benign", m["base"], "patch.diff")], cwd=SCRATCH,
+                           stdout=subprocess.PIPE, stderr=subprocess.STDOUT, text=True)
+        if r.returncode != 0:
+            return "STALE", f"base patch {m['base']} does not apply: {r.stdout[:100]}"
     for (f, old, new) in m["edits"]:
         p = os.path.join(SCRATCH, f)
         s = open(p).read()
